@@ -343,7 +343,7 @@ pub fn run(opts: &Opts) -> i32 {
                         format!("ops={}", rng.range(10, 80)),
                         format!("ending={}", rng.below(3)),
                     ],
-                    60,
+                    180,
                 );
                 if g.as_deref().map_or(true, |s| !s.starts_with("genimg-done")) {
                     out.emit3(&format!("note genimg-failed {:?}", g), "note", "FAIL workload-child-failed");
